@@ -145,12 +145,17 @@ class World:
         self.flat = {}
         self.ref = RefCache(cfg.ib, cfg.bb, cfg.ways, cfg.kind, cfg.policy, cfg.penalty)
         self.ref_valid = True  # False once a rejected access left the residency unspecified
+        self.broken = None
         if cfg.pre:
             for a in cfg.bytes:
                 if cfg.pre == 2 and not (a >> 2) & 1:
                     continue  # sparse preload: only every other word exists below the cache (blocks are partly absent)
                 v = preload_byte(a)
-                self.mem.write_byte(cfg.spell(a), rv.U8(v), directly_write_to_lower_memory=True)
+                try:
+                    self.mem.write_byte(cfg.spell(a), rv.U8(v), directly_write_to_lower_memory=True)
+                except Exception as e:  # noqa - a preload the uncached memory accepts must be accepted below a cache, too
+                    self.broken = f"preload write_byte({cfg.spell(a):#x}, directly_write_to_lower_memory=True) raised {type(e).__name__}"
+                    return
                 self.flat[a] = v
 
     def wval(self, op):
@@ -466,6 +471,9 @@ def hist_text(cfg, hist):
 def run_history(cfg, hist, want, last_checks=True):
     """Replay a history on a fresh world; oracle checks on the last operation only. Returns (world, status, checks)."""
     w = World(cfg)
+    if w.broken:
+        w.state_key = digest(("broken", w.broken))
+        return w, "error", [("unexpected-error", f"initial state: {w.broken}")]
     status = "ok"
     for i in hist[:-1]:
         status = w.apply(cfg.ops[i])
@@ -529,6 +537,13 @@ def expand(shard):
 def explore(ctx, cfg: Cfg, want, maxdepth, state_cap=300000, deadline=None):
     t0 = time.time()
     w0 = World(cfg)
+    if w0.broken:
+        part = Partial()
+        part.evaluations += 1
+        part.violation(dict(oracle="cache-bfs", field="unexpected-error", kind=cfg.kind), dict(kind="cache-history", cfg=list(cfg.args()), hist=[], want=list(want)),
+                       f"{cfg.name()}: initial state: {w0.broken}")
+        ctx.space(cfg.name(), part, t0, depth=0, closed=False, stopped_early="initial state cannot be built", **cfg.desc())
+        return None
     init_checks = []
     key0 = w0.key()
     if "coherence" in want:
@@ -576,6 +591,10 @@ def deep_shard(shard):
     seq = [ops[i] for i in pair_cover(len(ops))]
     p = Partial()
     w = World(cfg)
+    if w.broken:
+        p.violation(dict(oracle="cache-deep-path", field="unexpected-error", kind=cfg.kind), dict(kind="cache-history", cfg=list(cfgargs), hist=[], want=list(want)),
+                    f"{cfg.name()}: initial state: {w.broken}")
+        return p
     hist = []
     resets = 0
     for oi in seq:
